@@ -10,19 +10,19 @@ import (
 // socket on a client listener and (once matched) the socket the channel's
 // target accepted for it.
 type LConn struct {
-	I      int
-	Lsn    LsnCfg
-	TIdx   int    // index into World.Targets
-	First  string // who writes the first byte: "app" or "target" (identifies the pair)
-	Mode   string // active, idle, paused-app, paused-target
-	PlanA  []Op
-	PlanT  []Op
-	WantA  int64
-	WantT  int64
-	App    *Peer
-	Tp     *Peer
-	Opened bool
-	OpenAt int // step
+	I        int
+	Lsn      LsnCfg
+	TIdx     int    // index into World.Targets
+	First    string // who writes the first byte: "app" or "target" (identifies the pair)
+	Mode     string // active, idle, paused-app, paused-target
+	PlanA    []Op
+	PlanT    []Op
+	WantA    int64
+	WantT    int64
+	App      *Peer
+	Tp       *Peer
+	Opened   bool
+	OpenAt   int // step
 	TpTarget int // index of the target whose socket was matched (Cross mode)
 	Expect   int // expected target index, -1 = must be refused (C03)
 }
